@@ -88,7 +88,7 @@ class _Scopes(ast.NodeVisitor):
             if t.attr in ('_selectors', '_selectorlevel', '_level') and self.rel.endswith('serialize.py'):
                 self.rows.append(('serializer-state-write', self.where(), '%s %s' % (t.attr, self.context())))
             if t.attr in ('_pushed',):
-                self.rows.append(('pushed-write', self.where(), self.context()))
+                self.rows.append(('pushed-write', self.where(), '-'))
             # cssutils.ser.prefs.<x> = ... / ser.prefs.<x> = ...
             if isinstance(t.value, ast.Attribute) and t.value.attr == 'prefs' and not self.rel.endswith('serialize.py'):
                 self.rows.append(('prefs-write', self.where(), t.attr))
@@ -98,7 +98,7 @@ class _Scopes(ast.NodeVisitor):
                           '_profilesProperties') and not self.rel.endswith('profiles.py'):
                 self.rows.append(('profiles-write', self.where(), t.attr))
         if isinstance(t, ast.Name) and t.id == 'savedTokens':
-            self.rows.append(('saved-def', self.where(), self.context()))
+            self.rows.append(('saved-def', self.where(), '-'))
 
     def visit_Call(self, node):
         f = node.func
@@ -110,10 +110,10 @@ class _Scopes(ast.NodeVisitor):
         if name in ('addProfile', 'addProfiles', 'removeProfile') and not self.rel.endswith('profiles.py'):
             self.rows.append(('profiles-write', self.where(), name))
         if isinstance(f, ast.Attribute) and isinstance(f.value, ast.Name) and f.value.id == 'savedTokens':
-            self.rows.append(('saved-' + f.attr, self.where(), self.context()))
+            self.rows.append(('saved-' + f.attr, self.where(), '-'))
         if isinstance(f, ast.Attribute) and isinstance(f.value, ast.Name) and f.value.id == 'tokenizer' \
                 and f.attr in ('push', 'clear'):
-            self.rows.append(('pushed-' + f.attr, self.where(), self.context()))
+            self.rows.append(('pushed-' + f.attr, self.where(), '-'))
         if name == 'ProdParser':
             args = [ast.unparse(a) for a in node.args] + ['%s=%s' % (k.arg, ast.unparse(k.value)) for k in node.keywords]
             if args:
